@@ -48,6 +48,8 @@ schema(DS + "#lnk", {
 })
 
 GCD = DS + ".__get_common_dtype"
+# __update_normalization_vars and what it needs also serve C01 (faithful evaluation rests on the exact unnormalisation: norm factor = ub - lb)
+C02_C01 = ("C02", "C01")
 CDA = DS + ".convert_dict_to_array"
 
 
@@ -138,7 +140,7 @@ class _CommonDtype(Contract):
     """The common dtype of real (resp. boolean) vectors is the float dtype (no integer / complex value among them)."""
 
     targets = (GCD,)
-    prop = ("C02",)
+    prop = C02_C01
     numpy = "precise"
     c02_lnk = True
     self_class = DS
@@ -223,7 +225,7 @@ class _ConvertDictToArray(Contract):
     component start(name) + j is component j of design_values[name]."""
 
     targets = (CDA,)
-    prop = ("C02",)
+    prop = C02_C01
     self_schema = DS + "#lnk"
     numpy = "precise"
     c02_lnk = True
@@ -299,7 +301,7 @@ class OffsetLemmas(Contract):
     functions cite the instance S(k) = start(names_to_indices[name_k]), E(k) = stop(...)."""
 
     targets = ()
-    prop = ("C02",)
+    prop = C02_C01
     lemma = True
 
     def lemmas(self):
@@ -420,7 +422,7 @@ class _GetBounds(Contract):
     """get_lower_bounds() / get_upper_bounds() (every variable, as an array): a vector of length `dimension` whose component start(name) + j is
     component j of the bound of `name` - whether it is served from the cache (data flagged as computed) or concatenated on the spot."""
 
-    prop = ("C02",)
+    prop = C02_C01
     variant = "lnk"
     self_schema = DS + "#lnk"
     numpy = "precise"
@@ -457,7 +459,7 @@ class GetUpperBounds(_GetBounds):
 class CommonDtypeOfCurrentValues(Contract):
     targets = (GCD,)
     variant = "cv"
-    prop = ("C02",)
+    prop = C02_C01
     numpy = "precise"
     self_class = DS
     returns = DTYPE
@@ -480,7 +482,7 @@ class UpdateNormalizationVars(Contract):
 
     targets = (UNV,)
     variant = "lnk"
-    prop = ("C02",)
+    prop = C02_C01
     self_schema = DS + "#lnk"
     numpy = "precise"
     c02_lnk = True
@@ -519,7 +521,7 @@ class RangeLemmas(Contract):
     (= [0, dimension] by the `dimension` clause of the invariant).  S, E: uninterpreted functions (the lemma holds for every S, E)."""
 
     targets = ()
-    prop = ("C02",)
+    prop = C02_C01
     lemma = True
 
     def lemmas(self):
@@ -869,7 +871,7 @@ class OwnerLemmas(Contract):
     (dimension = E(n - 1) by the `dimension` clause of the invariant)."""
 
     targets = ()
-    prop = ("C02",)
+    prop = C02_C01
     lemma = True
 
     def lemmas(self):
